@@ -41,6 +41,7 @@ LINE_EXC = {
 
 
 _site_cache = {}
+_API_BASE = None
 
 
 def fault_site_ok(filename, lineno):
@@ -153,6 +154,10 @@ def apply_convert(mod, how, torch):
             return mod.double() if how == "double_overwrite" else mod.float()
         finally:
             fut.set_overwrite_module_params_on_conversion(old)
+    if how == "eval":
+        return mod.eval()
+    if how == "train":
+        return mod.train()
     if how == "reload_assign":
         # checkpoint reload that replaces the parameter/buffer objects
         sd = {k: v.detach().clone() for k, v in mod.state_dict().items()}
@@ -163,7 +168,7 @@ def apply_convert(mod, how, torch):
 
 CONVERT_TARGET = {"double": "float64", "to64": "float64", "float": "float32", "to32": "float32",
                   "double_overwrite": "float64", "float_overwrite": "float32",
-                  "reload_assign": None}
+                  "reload_assign": None, "eval": None, "train": None}
 
 
 def module_state_snap(mod):
@@ -860,6 +865,70 @@ class World:
         self.probe("extra_api_calls")
         rec["unjudged"] = True
 
+    def op_newapi(self, cl, op, rec):
+        """Call a public function that exists in some library module now but
+        not on the pinned tree (wavesim/api_baseline.json) - e.g. a new
+        `clear_cache()` / `set_precision()` / `register_wavelet()` helper - with
+        arguments guessed from parameter names.  Its outcome is not judged; what
+        it does to every later call is, by the usual oracles."""
+        import inspect
+        import json as _json
+        import os as _os
+        global _API_BASE
+        if _API_BASE is None:
+            with open(_os.path.join(_os.path.dirname(__file__), "api_baseline.json")) as f:
+                _API_BASE = _json.load(f)
+        cands = []
+        for mname in sorted(sys.modules):
+            m = sys.modules[mname]
+            if not mname.startswith("pytorch_wavelets") or m is None or mname.endswith(".coeffs"):
+                continue
+            known = set(_API_BASE.get(mname, ()))
+            for n, f in sorted(vars(m).items()):
+                if n.startswith("_") or n in known or not inspect.isfunction(f) \
+                        or getattr(f, "__module__", None) != mname:
+                    continue
+                cands.append((mname, n, f))
+        if not cands:
+            return self._skip(rec, "no-new-api")
+        mname, n, fn = cands[op["index"] % len(cands)]
+        args, kwargs = [], {}
+        try:
+            params = list(inspect.signature(fn).parameters.values())
+        except (TypeError, ValueError):
+            params = []
+        pick = op["flip"]
+        for i, prm in enumerate(params):
+            if prm.kind not in (prm.POSITIONAL_OR_KEYWORD, prm.KEYWORD_ONLY):
+                continue
+            nm = prm.name.lower()
+            required = prm.default is inspect.Parameter.empty
+            on = (pick >> (i % 4)) & 1
+            if not required and not on:
+                continue
+            if "dtype" in nm or "precision" in nm:
+                v = ["float32", "float64"][pick % 2]
+            elif any(k in nm for k in ("name", "wave", "biort", "qshift", "table")):
+                v = ["near_sym_a", "qshift_a", "db2"][pick % 3]
+            elif isinstance(prm.default, bool):
+                v = not prm.default
+            elif isinstance(prm.default, (int, float)) and not isinstance(prm.default, bool):
+                v = prm.default + 1
+            else:
+                v = [True, 1, "float32", None][pick % 4]
+            if required:
+                args.append(v)
+            else:
+                kwargs[prm.name] = v
+        self.dtype_sensitive += 1
+        try:
+            status, val = cl.guarded(lambda: fn(*args, **kwargs))
+        finally:
+            self.dtype_sensitive -= 1
+        self._finish(cl, rec, status, val)
+        self.probe("new_api_calls")
+        rec["unjudged"] = True
+
     def op_func(self, cl, op, rec):
         torch = self.L.torch
         rec["default_dtype"] = self.intended_default
@@ -1130,6 +1199,8 @@ def func_args(L, op):
             v.requires_grad_(True)
         bases.append(b)
         tens.append(v)
+    if op.get("alias_args") and len(tens) >= 2:
+        tens[-1] = tens[-2]          # the same tensor object passed for two arguments
     synth = fn.startswith("sfb")
     lo, hi = (wv.rec_lo, wv.rec_hi) if synth else (wv.dec_lo, wv.dec_hi)
     lo, hi = np.array(lo), np.array(hi)
